@@ -8,6 +8,7 @@ TRUST = ("Trusted base: CrossHair 0.0.110's symbolic model of CPython str/int/li
          "per query in the evidence file, nothing is claimed outside them.")
 TECH = "bounded symbolic execution of the real Python functions (CrossHair proxies + z3), path tree exhausted per query; counterexamples replayed natively"
 CLAIMED = {
+    "C03": ("6 C03", "AbstractFieldFormat.validated characterised completely for every built-in type (constructed for real; the type's hook replaced by a recorder with a symbolic verdict): reject / empty value without consulting the hook / exactly one hook call with the (blank-stripped) cell, for every Unicode cell up to 3-4 characters, over the grid type x empty flag x 6 length declarations x 3 allowed-character ranges x 4 formats (quick: fixed core + seeded extras; thorough: full grid)."),
     "C05": ("6 C05", "rows(yield)+close with the real IsUnique / DistinctCount checks decided against an oracle that follows the property text (keys remembered only for accepted rows; distinct values counted for rows that reached the check) for all key assignments over a 3-letter alphabet, all validity patterns of the other cell, header and limit within 2-3 rows (thorough: 5 rows with enumerated keys); error row, first-occurrence row and end-of-data verdict compared. One genuine defect is a recorded known finding."),
     "C08": ("6 C08", "One inductive step: from an ARBITRARY state of the CID's checks (any remembered keys at any rows, any positive counts) each operation (rows in three modes, validate, writer, a reader created before the state was dirtied, an unclosed reader followed by another) has exactly the outcome it has on a fresh CID, for all tables within 2-3 rows. Covers histories of any length if the representation invariant is right; counterexamples are replayed as real histories."),
     "C20": ("6 C20", "The complete call log of harness-defined recording field formats and checks (resolved by class name through the real Cid) equals the log the protocol prescribes, decided for all headers, limits, cell contents, per-row vetoes and end-of-data failures within 1-3 rows x 1-3 fields x 1-2 checks, reader (three modes), writer, fixed and delimited, allowed characters, and two consecutive runs on one CID."),
